@@ -181,7 +181,28 @@ structure AtomicState where
   clock : Option Clock := none
   /-- bit width of the integer type (values are kept reduced mod 2^bits) -/
   bits : Nat := 64
+  /-- two's complement type (`i8 … isize`): affects `fetch_max/min` and how values print -/
+  signed : Bool := false
+  /-- `AtomicBool` (bits = 1; prints `true`/`false`) -/
+  isBool : Bool := false
 deriving Repr, Inhabited
+
+namespace AtomicState
+/-- `v as $int_type` of a `u64` operand -/
+def norm (a : AtomicState) (v : Nat) : Nat := v % 2 ^ a.bits
+/-- the value as the type's `Display` prints it -/
+def render (a : AtomicState) (v : Nat) : String :=
+  if a.isBool then (if v % 2 == 1 then "true" else "false")
+  else if a.signed && v ≥ 2 ^ (a.bits - 1) then "-" ++ toString (2 ^ a.bits - v)
+  else toString v
+/-- `x ≤ y` in the order of the integer type -/
+def le (a : AtomicState) (x y : Nat) : Bool :=
+  if a.signed then
+    let sx := x ≥ 2 ^ (a.bits - 1)
+    let sy := y ≥ 2 ^ (a.bits - 1)
+    if sx == sy then x ≤ y else sx
+  else x ≤ y
+end AtomicState
 
 namespace Atomic
 variable {U : Type}
